@@ -147,6 +147,7 @@ def c09(tier):
     run.add_mc(F.curated() + F.random_family(3100 + s, sizes(tier, 30, 300), nmax=4), ["C09"], max_pause=1,
                replay=(tier != "quick"))
     run.add_jobs(jobs_for(defs, {"pause": 1, "max_nodes": sizes(tier, 1500, 6000)}, s, ("yaql", "jinja")))
+    run.add_jobs(jobs_for(F.curated_items() + F.curated_retry(), {"pause": 1, "max_nodes": sizes(tier, 1000, 6000)}, s))
     gs, infeasible = G.pause_groups(run.results, sizes(tier, 40, 400), random.Random(s))
     run.extra["twin_infeasible"] = infeasible
     run.add_groups(gs)
@@ -166,6 +167,10 @@ def c10(tier):
                replay=(tier != "quick"))
     run.add_jobs(jobs_for(defs, {"pause": 1, "cancel": 1, "resume_early": tier != "quick",
                                  "max_nodes": sizes(tier, 1500, 6000)}, s))
+    more = F.curated_items() + F.curated_retry()
+    run.add_jobs(jobs_for(more, {"pause": 1, "cancel": 1, "max_nodes": sizes(tier, 800, 5000)}, s, tok="visit"))
+    e2 = F.with_e2(F.curated()[:10] + F.curated_items()[:11])
+    run.add_jobs(jobs_for(e2, {"cancel": 1, "sample": sizes(tier, 3, 5), "max_nodes": sizes(tier, 1200, 6000)}, s))
     return run.finish("model_checking",
                       "cancel requested at every position (from running, pausing, paused, resuming) of every explored history",
                       ASSUME_COMMON)
@@ -199,6 +204,8 @@ def c05(tier):
     run = P.Run("C05", tier, ["C05_"])
     s = run.seed
     defs = F.curated() + F.random_family(1900 + s, sizes(tier, 50, 500), nmax=4, publish=True)
+    defs += F.curated_items() + F.curated_retry() + F.curated_ctx()
+    defs += [d for d in F.fault_family(("undef",)) if d["fault"]["pos"] in ("vars", "output", "publish", "when")]
     run.add_jobs(jobs_for(defs, {"pause": 1, "cancel": 1, "sample": sizes(tier, 2, 3), "max_nodes": sizes(tier, 400, 1500)},
                           s, ("yaql", "jinja")))
     gs, errors = G.persist_groups(run.results, sizes(tier, 4, 10), random.Random(s))
@@ -210,6 +217,27 @@ def c05(tier):
                       ASSUME_COMMON + ["persist points are sampled (all, single, random subsets), not all 2^n subsets"])
 
 
+@reg("C11")
+def c11(tier):
+    run = P.Run("C11", tier, ["C11_"], conform=True, conform_budget=sizes(tier, 15000, 100000))
+    s = run.seed
+    kinds = ("undef", "key", "type", "func")
+    fam = F.fault_family(kinds)
+    run.add_mc([d for d in fam if d["fault"]["pos"] not in ("action", "input", "items", "conc", "delay")][::4], ["C11"],
+               max_pause=1, replay=True)
+    run.add_jobs(jobs_for(fam, {"pause": 1, "cancel": 1, "max_nodes": sizes(tier, 700, 4000)}, s, ("yaql", "jinja"), tok="visit"))
+    if tier != "quick":
+        run.add_jobs(jobs_for(fam, {"lazy": True, "max_nodes": 4000}, s + 1, ("jinja", "yaql"), tok="visit"))
+    run.extra["positions"] = list(F.FAULT_POSITIONS)
+    run.extra["kinds"] = list(kinds)
+    return run.finish("fault_enumeration",
+                      "12 expression-bearing positions x 4 failure kinds (undefined variable, missing key, wrong type, "
+                      "unknown function) x 2 expression languages, on a fork/join host; every history of the host with "
+                      "one pause and one cancel placed anywhere, so the faulty position is evaluated at every point "
+                      "at which it can be",
+                      ASSUME_COMMON + ["'every way evaluation can fail' = the four kinds the concretiser knows"])
+
+
 @reg("C12")
 def c12(tier):
     run = P.Run("C12", tier, ["C12_"])
@@ -218,6 +246,8 @@ def c12(tier):
     run.add_mc(F.curated_items(), ["C12"], max_pause=1, max_cancel=(0 if tier == "quick" else 1), max_steps=16,
                replay=True)
     run.add_jobs(jobs_for(defs, {"pause": 1, "cancel": 1, "max_nodes": sizes(tier, 1500, 6000)}, s, ("yaql", "jinja"), tok="visit"))
+    e2 = F.with_e2(F.curated_items(), fates=("s", "f", "C", "P", "t"))
+    run.add_jobs(jobs_for(e2, {"pause": 1, "cancel": 1, "sample": sizes(tier, 3, 5), "max_nodes": sizes(tier, 1500, 8000)}, s))
     return run.finish("model_checking",
                       "with-items tasks (n in 0..4, concurrency absent/1/2/0/expression; alone, in a branch, as join "
                       "target, parallel, with retry) x item outcome vectors x all report orders x pause/cancel placements",
